@@ -75,6 +75,8 @@ CXX_SHAPES = [
     ("inherit-virtual", "struct {t}_B {{ virtual void f(); int b; }}; struct {t} : {t}_B {{ void f() override; int d; }};"),
     ("inherit-multiple", "struct {t}_A {{ int a; }}; struct {t}_B {{ double b; }}; struct {t} : {t}_A, {t}_B {{ char c; }};"),
     ("inherit-virtual-base", "struct {t}_V {{ int v; }}; struct {t}_L : virtual {t}_V {{ int l; }}; struct {t} : virtual {t}_V {{ int r; }};"),
+    ("inherit-float-base", "struct {t}_B {{ double d; }}; struct {t}_M : {t}_B {{ int m; }}; struct {t} : {t}_M {{ char c; }};"),
+    ("template-float-def", "template <typename T> struct {t}_W {{ T v; float w; }}; struct {t}_H {{ {t}_W<int> a; }}; struct {t} {{ {t}_H h[2]; }};"),
     ("empty-base", "struct {t}_E {{}}; struct {t} : {t}_E {{ int x; }};"),
     ("template-used", "template <typename T> struct {t}_T {{ T v; T *p; }}; struct {t} {{ {t}_T<int> a; {t}_T<{t}_T<char> > b; }};"),
     ("template-unused", "template <typename T, typename U> struct {t}_T {{ T only; }}; struct {t} {{ {t}_T<int, float> a; }};"),
@@ -145,13 +147,15 @@ def run(ck, only=None):
         keys = [a.key for a in gen_c.ATOMS]
         pick = {k for i, k in enumerate(keys) if (i + ck.seed) % 6 == 1}
         recs = [c for c in recs if len(c.atoms) == 1 or c.atoms[0] in pick]
-        ck.cap("quick tier: 2-member records whose first member is in a rotated sixth of the atom alphabet; option rows on a sixth of them")
+        ck.cap("quick tier: 2-member records whose first member is in a rotated sixth of the atom alphabet; a rotated third of the option rows on a twelfth of them")
     fam_c = recs
     fam_cpp = cxx_family() + cxx_shapes()
     if only:
         fam_c = [c for c in fam_c if c.cid == only.get("cid")]
         fam_cpp = [c for c in fam_cpp if c.cid == only.get("cid")]
     opts = OPTIONS if not only else [o for o in OPTIONS if o[0] == only.get("opt")]
+    if ck.tier == "quick" and not only:
+        opts = [o for k, o in enumerate(OPTIONS) if k <= 1 or (k + ck.seed) % 3 == 0]
     failed_default = set()
     for oname, flags, edition in opts:
         for lang, fam in (("c", fam_c), ("cpp", fam_cpp)):
@@ -161,9 +165,9 @@ def run(ck, only=None):
             if oname != "default":
                 cases = [c for c in fam if c.cid not in failed_default]
                 if ck.tier == "quick" and lang == "c":
-                    cases = [c for k, c in enumerate(cases) if k % 6 == 0]
+                    cases = [c for k, c in enumerate(cases) if k % 12 == 0]
                 elif ck.tier == "quick":
-                    cases = [c for k, c in enumerate(cases) if k % 3 == 0]
+                    cases = [c for k, c in enumerate(cases) if k % 3 == 0 or c.cid.startswith("cxx-shape")]
             batches = [(f"{lang}_{oname.replace('.', '_')}_{i // BATCH}", cases[i:i + BATCH]) for i in range(0, len(cases), BATCH)]
             prelude = "#![allow(warnings)]\n"
             res, _ = probes.compile_batches(batches, os.path.join(wd, f"{lang}_{oname.replace('.', '_')}"), flags, lang=lang,
@@ -206,7 +210,8 @@ def repo_headers(ck, only):
         if only and only.get("header") != bn:
             continue
         args, cb = common.repo_header_args(h)
-        if cb or bn.startswith("objc") or any(any(f == s or f.startswith(s + "=") for s in SKIP_FLAGS) for f in args) or "blocks" in bn:
+        foreign = any(a.startswith("--target=") and not a.startswith("--target=x86_64-unknown-linux") for a in args)
+        if foreign or cb or bn.startswith("objc") or any(any(f == s or f.startswith(s + "=") for s in SKIP_FLAGS) for f in args) or "blocks" in bn:
             skipped += 1
             continue
         jobs.append({"id": bn, "args": args, "timeout": 60})
@@ -238,6 +243,8 @@ def repo_headers(ck, only):
         if ok is None:
             continue
         ck.nontriv(("repo", bn))
+        if not ok and "couldn't read" in err:
+            continue  # the header's own raw lines pull in a file of the repository's expectation crate: outside the claim
         if not ok:
             codes = signature([err])
             ck.violation(f"repo-header {bn} rustc-rejects {codes}", {"header": bn, "predicate": f"repo|{codes}", "why": err[:700]})
